@@ -163,8 +163,6 @@ def union_coherent(t0, t1, dsel0, dsel1, dup_name, with_array):
     e = env()
     tn0, tn1 = _pick(TYPES, t0), _pick(TYPES, t1)
     d0, d1 = _pick(DISCS, dsel0), _pick(DISCS, dsel1)
-    arms = [(model.UnionMember('a0', {'float': 'r32'}.get(tn0, tn0), str(d0), definition=e['nodes'].get(tn0)), 1, 0),
-            (model.UnionMember('a0' if dup_name else 'a1', {'float': 'r32'}.get(tn1, tn1), str(d1), definition=e['nodes'].get(tn1)), 1, 0)]
     p = Parser.__new__(Parser)
     p._init_parse_data('t')
     p.typedecls = dict(e['nodes'])
@@ -182,6 +180,12 @@ def union_coherent(t0, t1, dsel0, dsel1, dup_name, with_array):
 
         def lexpos(self, i):
             return 0
+    # arms are produced by the real semantic action of `union_member : expression COLON type_spec ID`
+    arms = []
+    for dv, tn, nm in ((d0, tn0, 'a0'), (d1, tn1, 'a0' if dup_name else 'a1')):
+        t = _T([None, dv, ':', ({'float': 'r32'}.get(tn, tn), e['nodes'].get(tn)), nm])
+        p.p_union_member(t)
+        arms.append(t[0])
     try:
         p.p_union_def(_T([None, 'union', 'U', arms]))
         frontend_ok = not p.errors
@@ -216,8 +220,11 @@ def enum_coherent(vsel0, vsel1, dup_name):
     from . import exprharness as X
     v0, v1 = _pick(ENUMV, vsel0), _pick(ENUMV, vsel1)
     text = 'enum E { E_A = %s, %s = %s };\n' % (('(0 - 1)' if v0 < 0 else str(v0)), 'E_A' if dup_name else 'E_B', ('(0 - 1)' if v1 < 0 else str(v1)))
-    nodes, errors = X.run_parser(text, {})
-    frontend_ok = not errors
+    try:
+        nodes, errors = X.run_parser(text, {})
+        frontend_ok = not errors
+    except model.ModelError:
+        frontend_ok = False               # duplicate identifier: reported through prophyc's ModelError channel
     legal = 0 <= v0 < 2 ** 32 and 0 <= v1 < 2 ** 32 and not dup_name
     if frontend_ok and not legal:
         return False
